@@ -141,9 +141,33 @@ def process_history_case(ctx):
                     cls_name, mine, cls_name, other, bad), case)
 
 
+def extreme_frame_case(ctx):
+    """finite frames whose SUM is not finite (alternating ±1.5e308 over 16 pixels): every element is a finite number, the running mean of a
+    constant stream of them is that frame, and each of them counts"""
+    A = acclib.accmod()
+    for lifetime in (1, 4):
+        frame = np.array([1.5e308 if i % 2 == 0 else -1.5e308 for i in range(16)])
+        case = dict(extreme_frames=True, lifetime=lifetime, frame='16 pixels alternating +1.5e308 / -1.5e308', n=6)
+        ctx.case(('extreme-frames', lifetime), True, sample=case)
+        ctx.count('extreme_frames')
+        a = A.RunningMean(lifetime=lifetime)
+        try:
+            with np.errstate(all='ignore'):
+                for _ in range(6):
+                    a.accumulate(frame.copy())
+            v, n = np.asarray(a.value, dtype=float), a.n
+            ok = n == 6 and v.shape == frame.shape and bool(np.all(np.abs(v - frame) <= 1e-9 * np.abs(frame)))
+            why = 'n=%s, value[:2]=%s' % (n, v.ravel()[:2].tolist())
+        except Exception as e:  # noqa
+            ok, why = False, 'raised %r' % (e,)
+        if not ok:
+            ctx.fail('running-constant-not-reproduced', 'RunningMean(lifetime=%d) over a constant stream of a finite frame with huge alternating values: %s' % (lifetime, why), case)
+
+
 def check(ctx):
     default_instances_case(ctx)
     process_history_case(ctx)
+    extreme_frame_case(ctx)
     from harness import formulas
     formulas.check_formulas(ctx, ['RunningMean._accumulate_obj'])
     rng = ctx.rng
